@@ -30,6 +30,9 @@ type c19fSuf struct{ name, icann string }
 var c19fSufs = []c19fSuf{
 	{"com", "com"}, {"co.uk", "co.uk"}, {"com.au", "com.au"}, {"org", "org"},
 	{"github.io", "io"}, {"blogspot.com", "com"},
+	// Last labels in no public-suffix list: nothing to exclude.
+	{"lan", ""}, {"home", ""}, {"internal", ""}, {"corp", ""}, {"intranet", ""},
+	{"localdomain", ""}, {"test", ""}, {"qzx9net", ""}, {"fritzy", ""},
 }
 
 // c19fDom: see c19Dom of the part "lookup".
@@ -39,6 +42,8 @@ type c19fDom struct {
 	A, U    []string
 	Dis     map[string]string
 	Private bool
+	// Unlisted: the last label is in no public-suffix list.
+	Unlisted bool
 }
 
 func c19fAnalyse(typed string) (d c19fDom, ok bool) {
@@ -58,7 +63,10 @@ func c19fAnalyse(typed string) (d c19fDom, ok bool) {
 	labels := strings.Split(lower, ".")
 	total := len(labels)
 	icannLabels := strings.Count(e.icann, ".") + 1
-	d = c19fDom{Typed: typed, Name: lower, Dis: map[string]string{}, Private: e.name != e.icann}
+	if e.icann == "" {
+		icannLabels = 0
+	}
+	d = c19fDom{Typed: typed, Name: lower, Dis: map[string]string{}, Private: e.name != e.icann, Unlisted: e.icann == ""}
 	for i := 0; i < total; i++ {
 		s := strings.Join(labels[i:], ".")
 		nl := total - i
@@ -125,10 +133,16 @@ func c19fMixCase(rng *rand.Rand, s string) string {
 
 func c19fGen(rng *rand.Rand) c19fDom {
 	for {
-		suf := c19fSufs[rng.Intn(len(c19fSufs))]
+		suf := c19fSufs[rng.Intn(6)]
 		k := 1 + rng.Intn(6)
 		if rng.Intn(30) == 0 {
 			k = 0
+		}
+		if rng.Intn(4) == 0 {
+			suf = c19fSufs[6+rng.Intn(len(c19fSufs)-6)]
+			if rng.Intn(6) == 0 {
+				k = 0
+			}
 		}
 		parts := make([]string, 0, k+1)
 		for i := 0; i < k; i++ {
@@ -424,6 +438,9 @@ func TestVerifC19Filter(t *testing.T) {
 			} else {
 				rep.Class("host_in_lower_case")
 			}
+			if d.Unlisted {
+				rep.Class("host_whose_last_label_is_in_no_list")
+			}
 			if h < 3 && s == 1 {
 				rep.Sample(wit(nil))
 			}
@@ -472,6 +489,9 @@ func TestVerifC19Filter(t *testing.T) {
 						if mixed {
 							rep.Event("blocked_host_typed_with_upper_case")
 						}
+						if d.Unlisted {
+							rep.Event("blocked_host_whose_last_label_is_in_no_list")
+						}
 					} else {
 						rep.Event("not_blocked")
 						if mixed && (sb.set[c19fHash(d.Typed)] && setts.SafeBrowsingEnabled ||
@@ -491,7 +511,7 @@ func TestVerifC19Filter(t *testing.T) {
 	}
 	ev := rep.Events
 	for _, k := range []string{"lookup_requests_seen:safe-browsing", "lookup_requests_seen:parental",
-		"blocked_host_typed_with_upper_case", "not_blocked", "checks_during_service_failure", "blocked:" + FilteredParental.String(),
+		"blocked_host_typed_with_upper_case", "blocked_host_whose_last_label_is_in_no_list", "not_blocked", "checks_during_service_failure", "blocked:" + FilteredParental.String(),
 		"blocked:" + FilteredSafeBrowsing.String()} {
 		if ev[k] == 0 && !rep.Violated() {
 			rep.Inconcl("event never observed: " + k)
